@@ -24,7 +24,9 @@ META = {
     'text': 'Real Cluster + Session over the virtual server (2 nodes, +1 joining; or 3 nodes; protocol v4; every executor task, scheduler '
             'entry, connection timer and held answer is an explorer event).  Layer E: scenarios (requests in flight / timing out, also on a protocol-v2 legacy pool growing on demand; pool '
             'connection replacement after the orphaned-stream threshold, old connection trashed; node down -> reconnection attempts -> '
-            'node up -> pool re-creation; control-connection node down -> control reconnect; the same with three nodes where the next '
+            'node up -> pool re-creation; control-connection node down -> control reconnect; the only node down so that the control '
+            'reconnect finds no host and arms the scheduled _ControlReconnectionHandler -> failing host probes, node back, probe, pool '
+            're-creation, the handler\'s scheduled attempt; the control reconnect with three nodes where the next '
             'node of the plan fails every NEW connection -- closes it at the first or third request, never answers (thorough: fails '
             'STARTUP) -- so that the reconnect has to go on to the third; node joining / status events), all histories '
             'to depth 6-9 (thorough 8-11, either of the first two queued tasks first); Cluster.shutdown() and Session.shutdown() are '
@@ -38,7 +40,13 @@ META = {
             'blocking points) or nobody accepting any more (<= 1 preemption); pool creation and pool connection replacement while the '
             'session keyspace changes (the answer to an application USE arrives at a moment the schedule chooses, so the new connection '
             'has to be moved to the new keyspace with the session / pool lock released; switches at blocking points, thorough + 1 '
-            'preemption capped); and Cluster.connect() in one client '
+            'preemption capped); scheduled reconnection attempts (_ReconnectionHandler.run moved to the executor '
+            'by the scheduler) under way when the shutdown comes: the _ControlReconnectionHandler\'s attempt after the node came back (one '
+            'node; two nodes, one still down), the shutdown -- which cancels the handler -- running at every blocking point of the attempt '
+            '(handshake, REGISTER, system.local/peers reads), the attempt served or failed by the node in each of the six ways (refused: + 1 '
+            'preemption; thorough: served + 1 preemption on one node, Session.shutdown()); and a _HostReconnectionHandler attempt racing, on a '
+            'second executor worker, the Cluster.on_up() that a STATUS_CHANGE UP event scheduled and that cancels the handler while its probe '
+            'connection is being opened, the shutdown at every blocking point of the two; and Cluster.connect() in one client '
             'thread vs Cluster.shutdown() in another from an unconnected cluster (all schedules without preemption, i.e. switches at '
             'blocking points; thorough: + 1 preemption under a per-subtree cap).  Oracle, evaluated behind every shutdown after the '
             'default drain (answers delivered, queued tasks run, scheduler entries fired or dropped as _Scheduler would): every '
@@ -207,6 +215,11 @@ def e_configs(ctx):
         # the control connection's node dies: control connection reconnect (+ its reconnection handler when nobody is up)
         ('control', dict(scenario='control', alphabet=['kill', 'revive', 'sched'], prefix=[('exec',), ('exec',)], max_exec=2,
                          killable=(0, 1) if t else (0,), task_window=tw), 10 if t else 8),
+        # the only node died: ControlConnection._reconnect found no host and armed the scheduled _ControlReconnectionHandler (prefix);
+        # host reconnection attempts while the node is dead, node back, probe, pool re-creation, the scheduled control attempt
+        ('ctlsched', dict(scenario='ctlsched', hosts=1, alphabet=['revive', 'sched'] + (['kill'] if t else []),
+                          prefix=[('exec',), ('exec',), ('kill', 0)] + [('task', 0)] * 5, max_exec=2, killable=(0,), task_window=tw),
+         9 if t else 7),
         # three nodes, the control connection's node dies and the next node of the plan does not serve NEW connections
         # (closes them at the first / third request, never answers, fails STARTUP): the reconnect has to go on to the third
     ] + [
@@ -292,6 +305,13 @@ def s_harness(params, prefix, part):
             part.count('S_histories_with_attempt_under_way_at_shutdown_failing_after_it')
         if any(a[0] in (None, 'in') and a[1] in done and a[2] == 'connected' for a in trk.attempt_log):
             part.count('S_histories_with_attempt_under_way_at_shutdown_connecting_after_it')
+        for act in trk.handler_runs:
+            # a scheduled reconnection attempt whose handler was cancelled (ControlConnection.shutdown(), Cluster.on_up() ...)
+            # between the start and the end of the attempt, after the attempt had opened its connection
+            if act.cancelled_during_attempt() and any(c.opened for c in act.conns):
+                part.count('S_histories_with_%s_reconnection_handler_cancelled_during_its_attempt' % act.kind)
+                if any(c.handshake_phase not in ('never', 'failed') for c in act.conns):
+                    part.count('S_histories_with_%s_reconnection_handler_cancelled_during_its_attempt_that_then_connected' % act.kind)
         for c in st.w.conns[n0:]:
             if c.creator in c45lib.POOL_KINDS and len(set(u[0] for u in c.use_log)) > 1:
                 part.count('S_histories_with_keyspace_switch_on_connection_being_opened')
@@ -360,6 +380,30 @@ def s_configs(ctx):
             out.append((dict(c3, scenario='control3', kind='cluster', server=f), 1, 8))
     for f in ('eof0', 'eof2', 'err1', 'mute0'):
         out.append((dict(c3, scenario='control3', kind='cluster', server=f, later='refuse'), 1, None))
+    # scheduled reconnection attempts (_ReconnectionHandler.run moved to the executor by the scheduler) under way when the
+    # shutdown comes.  Control connection: its node died while no other node was reachable, so ControlConnection._reconnect
+    # got NoHostAvailable and armed the _ControlReconnectionHandler; the node is back (host reconnector probed it, pool
+    # re-created), the handler's next attempt is queued.  The shutdown (which cancels the handler) runs while the attempt waits
+    # for the node: during the handshake, for REGISTER, for the system.local / peers answers (switches at blocking points);
+    # the attempt's node fails it in each way (c45lib.FAULTS); refused: + 1 preemption (short).  One node, and two nodes of
+    # which one stays down.
+    to_ctl1 = [('exec',), ('exec',), ('kill', 0)] + [('task', 0)] * 5 + [('revive', 0), ('sched',), ('task', 0), ('task', 0), ('sched',)]
+    to_ctl2 = [('exec',), ('exec',), ('kill', 0), ('kill', 1)] + [('task', 0)] * 7 + [('revive', 0), ('sched',), ('sched',)] + \
+        [('task', 0)] * 3 + [('sched',)]
+    for name, p in (('ctlsched', dict(hosts=1, prefix=to_ctl1)), ('ctlsched2', dict(hosts=2, prefix=to_ctl2))):
+        out.append((dict(p, scenario=name, kind='cluster', server='ok'), 0, None))
+        if ctx.thorough:
+            if name == 'ctlsched':
+                out.append((dict(p, scenario=name, kind='cluster', server='ok'), 1, None))     # about 4200 executions
+            out.append((dict(p, scenario=name, kind='session', server='ok'), 0, None))
+        if name == 'ctlsched':
+            for f in sorted(c45lib.FAULTS):
+                out.append((dict(p, scenario=name, kind='cluster', server=f), 1 if f == 'refuse' else 0, None))
+    # host reconnector: its scheduled attempt (probe connection) is queued and so is the Cluster.on_up() that a STATUS_CHANGE UP
+    # event from the node scheduled, which cancels the reconnector: two executor workers, so the handler is cancelled while its
+    # attempt's connection is being opened; the shutdown comes at any blocking point of the two
+    to_probe_up = to_probe + [('push', 'UP', 1), ('sched',)]
+    out.append((dict(prefix=to_probe_up, scenario='probeup', kind='cluster', server='ok', workers=2), 0, None))
     # Cluster.connect() in one client thread, Cluster.shutdown() in another, from an unconnected cluster
     for order in ((1, -1) if ctx.thorough else (1,)):
         out.append((dict(scenario='connect', kind='cluster', server='ok', race_connect=True, future_order=order),
@@ -459,7 +503,12 @@ def run(ctx):
                        'non_vacuity counts executions / injection points by what was going on: ..._attempt_under_way_at_shutdown_failing_after_it = '
                        'a Connection.factory() call begun before the shutdown had done its work ended with an exception after that; '
                        '..._shutdown_inside_that_keyspace_switch = the node received the USE for the changed keyspace on a connection being '
-                       'opened before the shutdown was called and its answer was read after the call had begun.')
+                       'opened before the shutdown was called and its answer was read after the call had begun; '
+                       '..._injected_with_scheduled_<control|host>_reconnection_attempt_<connecting|connected> = at the call of shutdown() a '
+                       '_ReconnectionHandler.run task of that handler kind was running and its connection was open (handshake under way / done); '
+                       '..._reconnection_handler_cancelled_during_its_attempt = the handler was not cancelled when its attempt began and was '
+                       'when it was over (host: when its Connection.factory() call ended; control: when the task ended), the attempt having '
+                       'opened a connection.')
     ctx.assume('"after shutdown" is judged from the moment the shutdown call has returned; what the call itself runs while draining the '
                'executor (ThreadPoolExecutor.shutdown(wait=True) lets queued tasks run) is part of the call: such a task may still make '
                'the ONE connection attempt it is about (it must close it).  Not a second one: once an attempt of an activity has ended '
